@@ -78,26 +78,37 @@ func CreateAbsoluteURL(url string, base *nurl.URL) string {
 		return url
 	}
 
+	// White space around a reference is not part of it (as in browsers).
+	ref := strings.TrimSpace(url)
+	if ref == "" {
+		return url
+	}
+
 	// If it is hash tag, return as it is
-	if strings.HasPrefix(url, "#") {
+	if strings.HasPrefix(ref, "#") {
 		return url
 	}
 
 	// If it is data URI, return as it is
-	if strings.HasPrefix(url, "data:") {
+	if strings.HasPrefix(ref, "data:") {
 		return url
 	}
 
 	// If it is javascript URI, return as it is
-	if strings.HasPrefix(url, "javascript:") {
+	if strings.HasPrefix(ref, "javascript:") {
 		return url
 	}
 
-	// If it can't be parsed, or it is already an absolute URL (whatever its
-	// scheme is, e.g. "mailto:", "file:///" or "JavaScript:"), return as it is.
-	tmp, err := nurl.Parse(url)
-	if err != nil || tmp.Scheme != "" {
+	// If it can't be parsed, return as it is.
+	tmp, err := nurl.Parse(ref)
+	if err != nil {
 		return url
+	}
+
+	// If it is already an absolute URL (whatever its scheme is, e.g. "mailto:",
+	// "file:///" or "JavaScript:"), return it without the surrounding white space.
+	if tmp.Scheme != "" {
+		return ref
 	}
 
 	// Otherwise, resolve against base URI.
